@@ -27,7 +27,7 @@ RULE = (
     "byte with status 0. non-trivial = page with >= 1 own option, >= 1 inherited option and >= 1 sub-command or a "
     "description-less element; distinct by (tree shape, page path, width, formatter)."
 )
-BOUND = {"quick": "120 trees x all pages x 2-4 widths x 2 formatters", "thorough": "5000 trees x all pages x 2-4 widths x 2 formatters"}
+BOUND = {"quick": "120 trees x all pages x 2-4 widths x 2 formatters", "thorough": "24000 trees x all pages x 2-4 widths x 2 formatters"}
 ASSUMPTIONS = [
     "the terminal is at least as wide as the longest visible label (option label incl. alternative name, <argument>, command name, synopsis label) plus 20",
     "help texts contain no braces other than the documented {script_name} / {command_name} placeholders (they are format strings by contract)",
@@ -277,7 +277,7 @@ def first_diff(a, b):
 def plan(tier, seed):
     if tier == "quick":
         return [{"n": 30} for _ in range(4)]
-    return [{"n": 313} for _ in range(16)]
+    return [{"n": 1500} for _ in range(16)]
 
 
 def run(sh, spec):
